@@ -19,6 +19,9 @@ for pid in sys.argv[2:]:
         prev.append(' - ' + json.load(open(m))['change'])
     anchors = p['anchors']
     mech = '; '.join(f"{m['name']} ({m['where']})" for m in anchors.get('mechanism', []))
+    extra = ''
+    if int(rnd) >= 5:
+        extra = (" Assume the property is already being checked by a property-based test harness that compares the library against independent reference implementations over randomly generated inputs, generated call sequences on one object, results kept across later calls, and element counts / lengths around 253 and 65536; aim for a defect such a harness is unlikely to generate the trigger for by chance: a magic value or a narrow numeric window, a rare combination of three or more conditions, an interaction between two API entry points that are rarely used together, an exported option / constructor / helper that ordinary tests never touch, a particular ordering of otherwise ordinary calls, or a dependence on something outside the arguments (package-level state, object identity, capacity of a caller's slice).")
     txt = f"""You are given a Go library (libsv/go-bt: Bitcoin SV transactions and a script interpreter) in your own scratch git worktree at {wt} (a checkout of the library's current HEAD; work ONLY inside that directory; do not read or write anything under /verif or /repo; there is no network: every go command needs `export GOFLAGS=-mod=mod GOPROXY=off GOSUMDB=off GOTOOLCHAIN=local`).
 
 The library is claimed to satisfy this semantic property:
@@ -42,7 +45,7 @@ Your task: produce TWO different, realistic code changes ("seeded defects") to t
   (a) still compiles (`go build ./...`),
   (b) still passes the library's entire existing test suite unchanged (`go test -vet=off -count=1 ./...` in {wt} must print no FAIL),
   (c) breaks the property above, and
-  (d) needs something specific to manifest — an unusual input, a particular boundary value, a multi-step sequence of operations on one object, results kept across later calls, a particular flag combination or era, a particular interleaving, or two cooperating sites that each look fine alone — NOT something ordinary use would expose at once. Think of the kind of subtle regression a maintainer could plausibly introduce in a refactoring or "optimisation" (off-by-one at a boundary class, a missing copy, a wrong constant for a rare branch, a dropped check on an uncommon path, an operand order that only matters for asymmetric values, a cache or pooled buffer that goes stale, state that leaks from one call into the next, a fast path that disagrees with the general path for rare inputs...). The two changes should be in different functions / exercise different mechanisms. Avoid changes that make almost every input fail. Prefer parts of the property's statement that the earlier changes listed above leave untouched.
+  (d) needs something specific to manifest — an unusual input, a particular boundary value, a multi-step sequence of operations on one object, results kept across later calls, a particular flag combination or era, a particular interleaving, or two cooperating sites that each look fine alone — NOT something ordinary use would expose at once. Think of the kind of subtle regression a maintainer could plausibly introduce in a refactoring or "optimisation" (off-by-one at a boundary class, a missing copy, a wrong constant for a rare branch, a dropped check on an uncommon path, an operand order that only matters for asymmetric values, a cache or pooled buffer that goes stale, state that leaks from one call into the next, a fast path that disagrees with the general path for rare inputs...). The two changes should be in different functions / exercise different mechanisms. Avoid changes that make almost every input fail. Prefer parts of the property's statement that the earlier changes listed above leave untouched.{extra}
 
 For each change deliver, under {wt}/seeded/<n>/ (n = 1, 2):
   - patch.diff : `git diff` of the change against HEAD (library source only; the seeded/ directory itself must not be in the diff),
